@@ -383,6 +383,7 @@ def run(ctx) -> None:
             ctx.drift("C08|catalog_creation_syscall_order_not_a_CacheFS_behaviour", dict(detail={k: [d for d in v if not d["accepted"]][:2] for k, v in detail.items()}))
         ctx.sample(dict(workload="build:prior=A,new=B", abstract_events=[e["ev"] for e in tree_traces[2]["events"]]))
         ctx.sample(dict(workload="create", abstract_events=[e["ev"] for e in cat_traces[0]["events"]][:25]))
+        interrupted_creation(ctx, yaw, base, ref_records)
         if not quick:
             real_kills(ctx, base, inputs)
     ctx.extra["workloads"] = summary
@@ -392,6 +393,51 @@ def _close(a, b):
     import numpy as np
 
     return a.shape == b.shape and np.array_equal(a, b, equal_nan=True)
+
+
+def interrupted_creation(ctx, yaw, base, ref_records):
+    """The process is brought down by Ctrl-C / SIGINT or sys.exit() while a chunk is fetched: a BaseException travels
+    through the library (its context managers run), then the process is gone.  What is left must refuse to open or be
+    the complete new catalog - or the untouched old one."""
+    from harness import pipeline
+
+    df = cw.frames()["new"]
+    cs = 25
+    nchunks = -(-len(df) // cs)
+    for prior in (False, True):
+        for exc_cls in (KeyboardInterrupt, SystemExit):
+            for k in range(nchunks):
+                work = base / f"intr_{prior}_{exc_cls.__name__}_{k}"
+                work.mkdir()
+                cache = work / "cat"
+                if prior:
+                    cw.make(cache, "old")
+
+                class Frame(pipeline.InterruptingFrame):
+                    def __getitem__(self, item, exc_cls=exc_cls):
+                        try:
+                            return super().__getitem__(item)
+                        except KeyboardInterrupt:
+                            raise exc_cls("process interrupted while a chunk is fetched") from None
+
+                died = None
+                try:
+                    yaw.Catalog.from_dataframe(cache, Frame(df, k * cs), ra_name="ra", dec_name="dec", weight_name="w", redshift_name="z",
+                                               patch_centers=cw.centers(), chunksize=cs, overwrite=True, max_workers=1)
+                except BaseException as exc:  # noqa: BLE001 - the 'process' dies here
+                    died = type(exc).__name__
+                ctx.evaluated(1, ("interrupted_creation", prior, exc_cls.__name__, k))
+                if died is None:
+                    ctx.violation(f"C08|create{',over_old' if prior else ''}|interrupted_by_{exc_cls.__name__}|creation_returns_normally", dict(chunk=k))
+                    continue
+                got = attempt(lambda: cw.records(cache))
+                if got[0] == "error":
+                    continue
+                ok = [ref_records["new"]["records"]] + ([ref_records["old"]["records"]] if prior else [])
+                if got[1]["records"] not in ok:
+                    n = sum(len(v) for v in got[1]["records"].values())
+                    ctx.violation(f"C08|create{',over_old' if prior else ''}|interrupted_by_{exc_cls.__name__}|recovery=open|catalog_opens_with_partial_records",
+                                  dict(chunk=k, of=nchunks, records_found=n, records_input=len(df)))
 
 
 def real_kills(ctx, base, inputs):
